@@ -527,7 +527,8 @@ pub fn bclr(
     let bi = detail.operands[1].imm() as usize;
 
     let ctr = scalar("ctr", 32);
-    let branch_target = expr_scalar("lr", 32);
+    // the two low-order bits of the link register are ignored
+    let branch_target = Expression::and(expr_scalar("lr", 32), expr_const(0xffff_fffc, 32))?;
 
     match bo & 0x1f {
         0b00000..=0b00011 => {
@@ -713,7 +714,11 @@ pub fn bctr(control_flow_graph: &mut ControlFlowGraph, _: &capstone::Instr) -> R
     let block_index = {
         let block = control_flow_graph.new_block()?;
 
-        block.branch(expr_scalar("ctr", 32));
+        // the two low-order bits of the count register are ignored
+        block.branch(Expression::and(
+            expr_scalar("ctr", 32),
+            expr_const(0xffff_fffc, 32),
+        )?);
 
         block.index()
     };
